@@ -160,6 +160,11 @@ let register (reg : string -> (string list -> string) -> unit) =
   reg "maxpages" (fun a -> match a with
     | [ms; ps] -> string_of_z (max_pages_of (z_of_string ms) (z_of_string ps))
     | _ -> failwith "args");
+  reg "rollbacktruncate" (fun a -> match a with
+    | [me; de; sz; ps; mp] ->
+      (match rollback_truncate (z_of_string me) (z_of_string de) (z_of_string sz) (z_of_string ps) (z_of_string mp) with
+       | Some n -> string_of_z n | None -> "none")
+    | _ -> failwith "args");
   reg "checktruncate" (fun a -> match a with
     | [l; s; mm; mx; ps] ->
       let (e, t) = check_truncate (z_of_string l) (z_of_string s) (z_of_string mm) (z_of_string mx) (z_of_string ps) in
